@@ -1,5 +1,6 @@
 CONSTANTS
   FixLostTail = FALSE
+  MismatchResync = TRUE
   MaxMsgs = 4
   MaxFaults = 3
   TailLoss = FALSE
